@@ -33,7 +33,7 @@ def all_jobs(harness, grammars, maxlen_by_nterm, extra=None, split_from=3):
     for gid in grammars:
         gi = GIDX[gid]
         nt = CAT[gi]["nterm"]
-        N = maxlen_by_nterm.get(str(nt), maxlen_by_nterm.get("default"))
+        N = maxlen_by_nterm.get(gid, maxlen_by_nterm.get(str(nt), maxlen_by_nterm.get("default")))   # per-grammar override, then per terminal count
         for ln in range(0, N + 1):
             firsts = [-1] if ln < split_from else list(range(nt))
             for f in firsts:
@@ -43,7 +43,7 @@ def all_jobs(harness, grammars, maxlen_by_nterm, extra=None, split_from=3):
     return jobs
 
 
-NEAR_BASES = {"G1": 4, "G2": 2, "G3": 3, "G4": 2, "G5": 3, "G6": 2, "G7": 3, "G8": 2, "G9": 3, "G10": 4, "G11": 2, "G12": 4, "G13": 4, "G14": 3, "G15": 4, "G16": 2, "G17": 2, "G18": 2, "G19": 4, "G20": 3, "G21": 4, "G22": 4, "G23": 3, "G24": 4, "G25": 4, "G26": 1, "G27": 2, "G28": 2, "G29": 4, "G30": 4}
+NEAR_BASES = {"G1": 4, "G2": 2, "G3": 3, "G4": 2, "G5": 3, "G6": 2, "G7": 3, "G8": 2, "G9": 4, "G10": 4, "G11": 2, "G12": 4, "G13": 4, "G14": 3, "G15": 4, "G16": 2, "G17": 2, "G18": 2, "G19": 4, "G20": 3, "G21": 4, "G22": 4, "G23": 3, "G24": 4, "G25": 4, "G26": 1, "G27": 2, "G28": 2, "G29": 4, "G30": 4, "G31": 4, "G32": 4, "G33": 4, "G34": 4}
 
 
 def near_jobs(harness, grammars, edits, extra=None):
@@ -98,7 +98,7 @@ def simple_plan(prop, harness, rule, assumptions, extra_params=None, sg_prop=Non
     def plan(tier, seed):
         b = BOUNDS[prop][tier]
         ep = dict(extra_params or {})
-        for k in ("maxcost", "maxmatch"):
+        for k in ("maxcost", "maxmatch", "repair_maxlen", "repair_kmax"):
             if k in b:
                 ep[k] = b[k]
         jobs = all_jobs(harness, b["grammars"], b["all_len"], ep)
